@@ -17,7 +17,8 @@ Lemma read_arr_loop_eq L f d acc iseen s :
   | Err e => Err (eof_mal e)
   | Ok [] => Err Malformed
   | Ok ((b :: r) as s1) =>
-    if b =? cRB then Ok (OArr (rev acc), r)
+    if b =? cRB then
+      if max_arr L <? N.of_nat (length acc) then Err Malformed else Ok (OArr (rev acc), r)
     else if (2 <=? iseen) && (b =? cR) then
       match acc with
       | OInt g :: OInt n :: acc' => read_arr_loop L f d (mk_ref n g :: acc') 0 r
@@ -27,7 +28,7 @@ Lemma read_arr_loop_eq L f d acc iseen s :
       match read_object L f d s1 with
       | Err e => Err (eof_mal e)
       | Ok (o, s2) =>
-        if max_arr L <=? N.of_nat (length acc) then Err Malformed
+        if max_arr L <? N.of_nat (length acc) then Err Malformed
         else read_arr_loop L f d (o :: acc) (if is_int o then iseen + 1 else 0) s2
       end
   end.
@@ -332,7 +333,7 @@ Qed.
 Lemma arr_step L d p o ws f acc iseen X t1 :
   is_lead ws ->
   ro_spec o -> is_ref o = false -> wf_obj L d o = true -> (osize o <= f)%nat ->
-  N.of_nat (length acc) < max_arr L ->
+  N.of_nat (length acc) <= max_arr L ->
   skip_ws X = Ok t1 -> starts_with kw_stream t1 = false ->
   (ends_reg o = true -> follow_ok X = true) ->
   read_arr_loop L (S f) d acc iseen (ws ++ body p o ++ X)
@@ -344,7 +345,7 @@ Proof.
   apply good_head_facts in Hg as (_ & H1 & H2 & _).
   destruct (Hro p L d f X t1 Hw Hr Hf HX Hns Hfo) as (s' & Hread & Hs').
   rewrite E in *. cbn [app] in *. rewrite H1, H2, andb_false_r. rewrite Hread.
-  replace (max_arr L <=? N.of_nat (length acc)) with false by (symmetry; apply N.leb_gt; exact Hlen).
+  replace (max_arr L <? N.of_nat (length acc)) with false by (symmetry; apply N.ltb_ge; exact Hlen).
   apply arr_loop_ws. rewrite Hs', HX. reflexivity.
 Qed.
 
@@ -382,7 +383,7 @@ Qed.
 
 Lemma arr_step_ref L d n g ws f acc iseen X :
   is_lead ws ->
-  wf_ref L n g = true -> N.of_nat (length acc) + 2 <= max_arr L ->
+  wf_ref L n g = true -> N.of_nat (length acc) + 1 <= max_arr L ->
   read_arr_loop L (S (S (S f))) d acc iseen (ws ++ fmt_ref n g ++ X)
   = read_arr_loop L f d (ORef n g :: acc) 0 X.
 Proof.
@@ -398,7 +399,7 @@ Proof.
   { rewrite skip_is_lead by exact Hws. rewrite E1; cbn [app]; apply skip_ws_stop; exact Hs1. }
   unfold bytes, byte in *. rewrite Hskip1. rewrite E1 in Hread1 |- *. cbn [app] in Hread1 |- *.
   rewrite H11, H12, andb_false_r. rewrite Hread1.
-  replace (max_arr L <=? N.of_nat (length acc)) with false by (symmetry; apply N.leb_gt; lia).
+  replace (max_arr L <? N.of_nat (length acc)) with false by (symmetry; apply N.ltb_ge; lia).
   cbn [is_int].
   (* second integer *)
   destruct (read_int_token L f d g (cSP :: cR :: X) Hig Hlg Hg0 eq_refl)
@@ -407,8 +408,8 @@ Proof.
   rewrite read_arr_loop_eq. rewrite skip_ws_sp.
   rewrite E2 in Hread2 |- *. cbn [app] in Hread2 |- *. rewrite (skip_ws_stop b2 _ Hs2).
   unfold bytes, byte in *. rewrite H21, H22, andb_false_r. rewrite Hread2.
-  replace (max_arr L <=? N.of_nat (length (OInt n :: acc))) with false
-    by (symmetry; apply N.leb_gt; cbn [length]; lia).
+  replace (max_arr L <? N.of_nat (length (OInt n :: acc))) with false
+    by (symmetry; apply N.ltb_ge; cbn [length]; lia).
   cbn [is_int].
   (* the R *)
   rewrite read_arr_loop_eq. rewrite skip_ws_sp. rewrite skip_ws_stop by reflexivity.
@@ -458,9 +459,15 @@ Proof.
     + apply body_nostream with (L := L) (d := d). exact Hw.
 Qed.
 
+Lemma arr_fits_le L : forall l k, arr_fits L k l = true -> k <= max_arr L.
+Proof.
+  induction l as [|o r IH]; intros k H; cbn [arr_fits] in H.
+  - apply N.leb_le in H. exact H.
+  - apply IH in H. lia.
+Qed.
 Lemma arr_fits_cons L k o r : arr_fits L k (o :: r) = true ->
-  k + cost o <= max_arr L /\ arr_fits L (k + 1) r = true.
-Proof. cbn [arr_fits]. intro H. apply andb_true_iff in H as [H1 H2]. apply N.leb_le in H1. auto. Qed.
+  k + 1 <= max_arr L /\ arr_fits L (k + 1) r = true.
+Proof. cbn [arr_fits]. intro H. split; [apply (arr_fits_le L r); exact H | exact H]. Qed.
 
 Lemma lsize_cons o r : lsize (o :: r) = S (osize o + lsize r).
 Proof. reflexivity. Qed.
@@ -474,7 +481,10 @@ Proof.
   induction os as [|o os IH]; intros sep acc iseen fuel rest Hro Hw Hfit Hfuel.
   - cbn [fmt_list_plain app map]. destruct fuel as [|f]; [cbn in Hfuel; lia|].
     rewrite read_arr_loop_eq. rewrite skip_ws_stop by reflexivity.
-    change (cRB =? cRB) with true. cbn iota. rewrite app_nil_r. reflexivity.
+    change (cRB =? cRB) with true. cbn iota.
+    replace (max_arr L <? N.of_nat (length acc)) with false
+      by (symmetry; apply N.ltb_ge; apply (arr_fits_le L []); exact Hfit).
+    rewrite app_nil_r. reflexivity.
   - inversion Hro as [|? ? Hro1 Hro2]; subst.
     cbn [forallb] in Hw. apply andb_true_iff in Hw as [Hw1 Hw2].
     apply arr_fits_cons in Hfit as [Hc Hfit]. rewrite lsize_cons in Hfuel.
@@ -482,7 +492,7 @@ Proof.
     destruct (plain_tail L d os (ends_reg o) rest Hw2) as (t1 & Ht1 & Hns & Hfo).
     assert (Hlen' : N.of_nat (length (norm o :: acc)) = N.of_nat (length acc) + 1) by (cbn [length]; lia).
     destruct (is_ref o) eqn:Er.
-    + destruct o; try discriminate. cbn [wf_obj] in Hw1. cbn [cost] in Hc. cbn [osize] in Hfuel.
+    + destruct o; try discriminate. cbn [wf_obj] in Hw1. cbn [osize] in Hfuel.
       destruct fuel as [|[|[|f]]]; try lia.
       change (body false (ORef n g)) with (fmt_ref n g).
       rewrite arr_step_ref; [|apply lead_is_lead|exact Hw1|exact Hc].
@@ -507,7 +517,10 @@ Proof.
   induction os as [|o os IH]; intros first acc iseen fuel rest Hro Hw Hfit Hfuel.
   - cbn [fmt_list_pretty app map]. destruct fuel as [|f]; [cbn in Hfuel; lia|].
     rewrite read_arr_loop_eq. rewrite skip_ws_stop by reflexivity.
-    change (cRB =? cRB) with true. cbn iota. rewrite app_nil_r. reflexivity.
+    change (cRB =? cRB) with true. cbn iota.
+    replace (max_arr L <? N.of_nat (length acc)) with false
+      by (symmetry; apply N.ltb_ge; apply (arr_fits_le L []); exact Hfit).
+    rewrite app_nil_r. reflexivity.
   - inversion Hro as [|? ? Hro1 Hro2]; subst.
     cbn [forallb] in Hw. apply andb_true_iff in Hw as [Hw1 Hw2].
     apply arr_fits_cons in Hfit as [Hc Hfit]. rewrite lsize_cons in Hfuel.
@@ -516,7 +529,7 @@ Proof.
     assert (Hlen' : N.of_nat (length (norm o :: acc)) = N.of_nat (length acc) + 1) by (cbn [length]; lia).
     assert (Hlead : is_lead (if first then [] else [cSP])) by (destruct first; [left|right]; reflexivity).
     destruct (is_ref o) eqn:Er.
-    + destruct o; try discriminate. cbn [wf_obj] in Hw1. cbn [cost] in Hc. cbn [osize] in Hfuel.
+    + destruct o; try discriminate. cbn [wf_obj] in Hw1. cbn [osize] in Hfuel.
       destruct fuel as [|[|[|f]]]; try lia.
       change (body true (ORef n g)) with (fmt_ref n g).
       rewrite arr_step_ref; [|exact Hlead|exact Hw1|exact Hc].
